@@ -82,6 +82,10 @@ func siblingCompare(r *R, rule, rel string, fns []*ssa.Function, skip map[string
 			continue // closures are compared as part of their parent
 		}
 		name := normRef(funcName(fn))
+		if debugTextOnly(name) {
+			r.Ob(rule, "sibling:"+name).At(fn.Pos()).OK("builds text for logs and error details only; how the text is assembled is not compared")
+			continue
+		}
 		if why, ok := skip[name]; ok {
 			r.Ob(rule, "sibling:"+name).At(fn.Pos()).OK("intended difference: %s", why)
 			continue
@@ -198,7 +202,7 @@ var minSiblings = map[string]int{"C09": 3, "C15": 3}
 // The sibling comparison of a property is restricted to them, so that a deviation elsewhere alarms only the property it concerns.
 var propFuncs = map[string][]string{
 	"C08": {`^\(\*http2\.pipe\)`, `^\(\*http2\.dataBuffer\)`, `^http2\.(getDataBufferChunk|putDataBufferChunk)$`, `^\(\*http2\.writeData\)`, `^\(\*http2\.writeResHeaders\)`, `^http2\.(encodeHeaders|encKV|splitHeaderBlock|writeEndsStream)`,
-		`^\(\*http2\.responseWriter(State)?\)`, `^\(\*http2\.requestBody\)`, `^\(\*http2\.serverConn\)\.(writeDataFromHandler|writeFrameFromHandler|writeHeaders|write100ContinueHeaders|newWriterAndRequest|newWriterAndRequestNoBody|newResponseWriter|processData|writeFrameAsync|wroteFrame|runHandler|writeFrame|scheduleFrameWrite|startFrameWrite|resetStream|closeStream|handlerDone|processSettings|processSetting|processSettingInitialWindowSize|processWindowUpdate|noteBodyRead|noteBodyReadFromHandler|sendWindowUpdate|sendWindowUpdate32)$`, `^\\(\\*http2\\.outflow\\)`,
+		`^\(\*http2\.responseWriter(State)?\)`, `^\(\*http2\.requestBody\)`, `^\(\*http2\.serverConn\)\.(serve|writeDataFromHandler|writeFrameFromHandler|writeHeaders|write100ContinueHeaders|newWriterAndRequest|newWriterAndRequestNoBody|newResponseWriter|processData|writeFrameAsync|wroteFrame|runHandler|writeFrame|scheduleFrameWrite|startFrameWrite|resetStream|closeStream|handlerDone|processSettings|processSetting|processSettingInitialWindowSize|processWindowUpdate|noteBodyRead|noteBodyReadFromHandler|sendWindowUpdate|sendWindowUpdate32)$`, `^\\(\\*http2\\.outflow\\)`,
 		`^\(\*http2\.stream\)\.(endStream|copyTrailersToHandlerRequest|processTrailerHeaders)$`, `^http2\.(checkWriteHeaderCode|cloneHeader|foreachHeaderElement)$`, `^\(\*http2\.writeQueue\)`, `^\(http2\.FrameWriteRequest\)\.Consume$`,
 		// the buffered connection writer every frame goes through, and which statuses may carry a body
 		`^\(\*http2\.bufferedWriter\)`, `^\(\*http2\.bufferedWriterTimeoutWriter\)`, `^http2\.(writeWithByteTimeout|bodyAllowedForStatus|mustUint31|newBufferedWriter|httpCodeString)$`,
@@ -297,4 +301,17 @@ func forkTablesRule(r *R, rule string) {
 		}
 	}
 	o.Must(n >= 60, "only %d package-level initialisers found", n).OK("%d package-level initialisers compared", n)
+}
+
+// debugTextOnly: functions of the fork whose only product is a string for logs, error details and %v — String methods
+// of the frame and setting types and the frame summariser. Whether they use Sprintf, a Builder or concatenation is not
+// a protocol matter (the values that go on the wire never pass through them).
+func debugTextOnly(name string) bool {
+	switch name {
+	case "http2.summarizeFrame", "(http2.FrameHeader).writeDebug", "(http2.FrameHeader).String", "(http2.FrameType).String",
+		"(http2.Setting).String", "(http2.SettingID).String", "(http2.ErrCode).String", "(http2.streamState).String",
+		"(*http2.writeData).String", "(http2.FrameWriteRequest).String", "(http2.Flags).String":
+		return true
+	}
+	return false
 }
